@@ -18,6 +18,12 @@ PROPS = {
         "trusted": COMMON_TRUST + ["allocation and wall-clock bounds are measured on the real code by the harness (counting allocator, timer, watchdog); the model proves totality and panic-freedom only"],
         "assumptions": [],
     },
+    "C13": {
+        "modules": ["PrioProofs.Props.C13"],
+        "rule": "random multisets of 1-7 output shares of length 0-5 over four fields (extremes 0 and p-1 with probability 1/4), random permutation, random partition into batches, random merge-tree shape and merge direction, pairwise merges with length mismatch in 1/3 of the cases, Poplar1FieldVec kind/length mismatches; non-trivial = all;",
+        "trusted": COMMON_TRUST,
+        "assumptions": ["field addition is a commutative monoid (C09 for the macro fields; Field255 via fiat-crypto is trusted)"],
+    },
     "C20": {
         "modules": ["PrioProofs.Props.C20"],
         "rule": "exhaustive for 2-bit inputs (every non-empty prefix set at every level x every history of length <= 2), every (current, last) pair for 3-bit inputs (quick: every 5th), sampled histories of length 2-4, refinement walks over 12-bit inputs with perturbed and reordered histories; constructor on every ordered list of <= 3 prefixes from a pool with duplicates / mixed lengths / empty prefix, lengths 65535..65537, random lists; non-trivial = all;",
